@@ -164,6 +164,7 @@ def _short(x):
 
 class Check:
     pid = 'C19'
+    nondeterminism_is_violation = True      # a run that differs when executed again *is* a call that is not repeatable
     level = 'exploration'
     run_timeout = 300
     shrink_timeout = 120
